@@ -53,6 +53,11 @@ def sort_case(draw, tier="quick"):
     nk = draw(st.sampled_from([1, 1, 2, 2, 3]))
     keys = [{"values": draw(key_column(n)), "form": draw(st.sampled_from(["name", "own", "ext"])),
              "rev": draw(st.booleans())} for _ in range(nk)]
+    if nk >= 2 and draw(st.integers(0, 4)) == 0:
+        # the same column named twice among the keys (its second mention, in whatever direction, can never break a tie the
+        # first left): every other key keeps its own direction
+        j = draw(st.integers(1, nk - 1))
+        keys[j] = dict(keys[0], rev=draw(st.booleans()), dup_of=0)
     pay = draw(R.payload(n, 2))
     rev_form = draw(st.sampled_from(["bool", "list", "tuple"]))
     return {"n": n, "keys": keys, "payload": pay, "rev_form": rev_form, "na_last": draw(st.booleans()),
@@ -64,7 +69,9 @@ def _build(case):
     cols = [("pos", list(range(n)))]
     kpos = []
     for i, k in enumerate(case["keys"]):
-        if k["form"] != "ext" or (i == 0 and n == 0 and False):
+        if k.get("dup_of") is not None and k["form"] != "ext":
+            kpos.append(kpos[k["dup_of"]])           # the very same stored column again
+        elif k["form"] != "ext" or (i == 0 and n == 0 and False):
             kpos.append(len(cols))
             cols.append((f"sk{i}", k["values"]))
         else:
